@@ -75,6 +75,59 @@ def run(ctx):
     ctx.coverage["evaluations"] += n_rb
     ctx.coverage["input_distribution"]["readback_relations"] = n_rb
     ctx.coverage["rule"] += "; plus get_at(set_at(...)) read-back on collision-free set_at calls"
+    run_empty(ctx, cases)
+
+
+def _empty_variant(c):
+    """the same update with no iterations at all: an axis that only the coordinates / updates carry gets length 0 -> (call, expected) or None"""
+    import copy
+    tnames = {l.name for l in gencalls.leaves(c.ins[0])}
+    cand = sorted({l.name for t in c.ins[1:-1] for l in gencalls.leaves(t) if not l.number and not l.marked and l.name not in tnames})
+    top = lambda t, n: any(isinstance(d, gencalls.Ax) and d.name == n for d in t)           # noqa: E731
+    cand = [n for n in cand if all(top(t, n) for t in c.ins[1:] if any(l.name == n for l in gencalls.leaves(t)))]
+    if not cand:
+        return None
+    z = cand[0]
+    c2 = copy.deepcopy(c)
+    for t in c2.ins[1:]:
+        for l in gencalls.leaves(t):
+            if l.name == z:
+                l.size = 0
+    c2.arrays = [np.array(c.arrays[0])] + [np.zeros(gencalls.shape_of(t), dtype=np.asarray(a).dtype) for t, a in zip(c2.ins[1:], c.arrays[1:])]
+    perm = getattr(c, "out_perm", None)
+    expected = np.asarray(c.arrays[0]) if perm is None else np.transpose(np.asarray(c.arrays[0]), perm)
+    return c2, expected, perm is not None
+
+
+def _run_empty(item):
+    c2, expected, permuted = item
+    out = []
+    for b in implrun.BACKENDS:
+        r = implrun.run_call(c2, b)
+        if r[0] == "exc" and r[1] == "OperationNotSupportedError":
+            out.append(("ok", b))
+        elif r[0] == "ok" and len(r[1]) == 1 and r[1][0].shape == expected.shape and np.array_equal(r[1][0], expected):
+            out.append(("ok", b))
+        else:
+            out.append(("bad", b, {"kind": "update_without_iterations_wrong", "output_expression_reorders_target": permuted, "backend": b,
+                                   "outcome": r[0] if r[0] != "exc" else r[1]},
+                        {"call": c2.record(), "expected_shape": list(expected.shape), "got": [list(x.shape) for x in r[1]] if r[0] == "ok" else list(r[1:])}))
+    return out
+
+
+def run_empty(ctx, cases):
+    """updates over an empty coordinate / update tensor: nothing is addressed, every element keeps its value, in the output's layout"""
+    items = [x for x in (_empty_variant(c) for c in cases if c.family == "update_at") if x is not None]
+    items = items[: 60 if ctx.tier == "quick" else 2000]
+    n = 0
+    for it, rs in zip(items, common.pmap(_run_empty, items)):
+        for r in rs:
+            n += 1
+            if r[0] == "bad":
+                ctx.report(r[2], r[3])
+    ctx.coverage["evaluations"] += n
+    ctx.coverage["input_distribution"]["updates_without_iterations"] = n
+    ctx.coverage["rule"] += "; plus the same updates with an empty coordinate axis (no element addressed)"
 
 
 def replay(ctx, path):
